@@ -1,1 +1,874 @@
-(* C04 stub: to be written *)
+(* C04: proofs about the n-D / gridded shift model (Model/ShiftND.v). *)
+From Coq Require Import List ZArith Lia Bool Arith Ring Permutation QArith.
+From EPG Require Import Scalar State ListLemmas ShiftND.
+Import ListNotations.
+
+(* ------------------------------------------------------------------ list utilities *)
+Lemma nth_mapseq {B} n (f : nat -> B) i d : (i < n)%nat -> nth i (map f (seq 0 n)) d = f i.
+Proof. exact (nth_tab n f i d). Qed.
+
+Lemma list_as_tab {B} (d : B) (l : list B) : l = map (fun i => nth i l d) (seq 0 (length l)).
+Proof.
+  apply (nth_ext _ _ d d).
+  - now rewrite map_length, seq_length.
+  - intros i Hi. symmetry. apply (nth_mapseq (length l) (fun i => nth i l d) i d Hi).
+Qed.
+
+Lemma nth_skipn' {B} (d : B) m : forall (l : list B) i, nth i (skipn m l) d = nth (m + i) l d.
+Proof.
+  induction m as [|m IH]; intros l i; simpl; auto.
+  destruct l; simpl; auto. now destruct i.
+Qed.
+
+Lemma firstn_tab {B} (d : B) n (l : list B) : (n <= length l)%nat ->
+  firstn n l = map (fun i => nth i l d) (seq 0 n).
+Proof.
+  intros H. apply (nth_ext _ _ d d).
+  - rewrite firstn_length, map_length, seq_length. lia.
+  - intros i Hi. rewrite firstn_length in Hi.
+    rewrite (nth_mapseq n (fun i => nth i l d) i d) by lia.
+    rewrite <- (firstn_skipn n l) at 2. rewrite app_nth1; auto. rewrite firstn_length. lia.
+Qed.
+
+Lemma firstn_skipn_tab {B} (d : B) m n (l : list B) : (m + n <= length l)%nat ->
+  firstn n (skipn m l) = map (fun i => nth (m + i) l d) (seq 0 n).
+Proof.
+  intros H. rewrite (firstn_tab d) by (rewrite skipn_length; lia).
+  apply map_ext. intros i. apply nth_skipn'.
+Qed.
+
+Lemma combine_map_seq {B C} (f : nat -> B) (g : nat -> C) (s : list nat) :
+  combine (map f s) (map g s) = map (fun i => (f i, g i)) s.
+Proof. induction s; simpl; congruence. Qed.
+
+Lemma combine_tab_r {B C} (d : B) (u : list B) (f : nat -> C) :
+  combine u (tab (length u) f) = map (fun j => (nth j u d, f j)) (seq 0 (length u)).
+Proof.
+  rewrite (list_as_tab d u) at 1. unfold tab. apply combine_map_seq.
+Qed.
+
+Lemma combine_as_tab {B C D} (d1 : B) (d2 : C) (c : C -> D) (l1 : list B) (l2 : list C) n :
+  length l1 = n -> length l2 = n ->
+  combine l1 (map c l2) = map (fun i => (nth i l1 d1, c (nth i l2 d2))) (seq 0 n).
+Proof.
+  intros H1 H2. apply (nth_ext _ _ (d1, c d2) (d1, c d2)).
+  - rewrite combine_length, !map_length, seq_length. lia.
+  - intros i Hi. rewrite combine_length, map_length in Hi.
+    rewrite combine_nth by (rewrite map_length; lia). rewrite map_nth.
+    now rewrite (nth_mapseq n (fun i => (nth i l1 d1, c (nth i l2 d2))) i) by lia.
+Qed.
+
+Lemma Forall2_combine_in {B C} (P : B -> C -> Prop) l1 l2 :
+  Forall2 P l1 l2 -> forall x y, In (x, y) (combine l1 l2) -> P x y.
+Proof.
+  induction 1; simpl; intros a b Hin; [contradiction|].
+  destruct Hin as [E|Hin]; [inversion E; subst; auto|eauto].
+Qed.
+
+Lemma Forall2_map_l {B B' C} (f : B -> B') (P : B' -> C -> Prop) l1 l2 :
+  Forall2 P (map f l1) l2 <-> Forall2 (fun x y => P (f x) y) l1 l2.
+Proof.
+  split.
+  - revert l2. induction l1; intros l2 H; inversion H; subst; constructor; auto.
+  - induction 1; simpl; constructor; auto.
+Qed.
+
+Lemma Forall2_length {B C} (P : B -> C -> Prop) l1 l2 : Forall2 P l1 l2 -> length l1 = length l2.
+Proof. induction 1; simpl; congruence. Qed.
+
+Lemma map_fst_combine {B C} (l1 : list B) : forall (l2 : list C),
+  length l1 = length l2 -> map fst (combine l1 l2) = l1.
+Proof.
+  induction l1 as [|a l1 IH]; intros [|c l2] Hl; simpl in *; try discriminate; auto.
+  f_equal. apply IH. lia.
+Qed.
+
+Lemma opairs_some {B} (idx : list nat) (vs : list B) : opairs (map Some idx) vs = combine idx vs.
+Proof. revert vs. induction idx; intros [|v vs]; simpl; auto. now rewrite IHidx. Qed.
+
+Lemma lastmatch_in {B} (ps : list (nat * B)) j x : lastmatch ps j = Some x -> In (j, x) ps.
+Proof.
+  induction ps as [|[a v] t IH]; simpl; [discriminate|].
+  destruct (lastmatch t j) eqn:E.
+  - intros H; inversion H; subst. right; auto.
+  - destruct (Nat.eqb_spec a j); [|discriminate]. intros H; inversion H; subst. now left.
+Qed.
+
+Lemma lastmatch_nodup {B} (ps : list (nat * B)) j x :
+  NoDup (map fst ps) -> In (j, x) ps -> lastmatch ps j = Some x.
+Proof.
+  induction ps as [|[a v] t IH]; simpl; [contradiction|].
+  intros Hnd Hin. inversion Hnd as [|? ? Hni Hnd']; subst.
+  destruct Hin as [E|Hin].
+  - inversion E; subst.
+    destruct (lastmatch t j) eqn:El.
+    + exfalso. apply Hni. apply lastmatch_in in El. now apply (in_map fst) in El.
+    + now rewrite Nat.eqb_refl.
+  - now rewrite (IH Hnd' Hin).
+Qed.
+
+(* ------------------------------------------------------------------ scatter sums *)
+Section ScatterProofs.
+Variable S : ScalOps.
+Hypothesis L : ScalLaws S.
+Add Ring Kr : (k_ring S L).
+
+Lemma ksum_app (a b : list S) : ksum (a ++ b) = (ksum a + ksum b)%K.
+Proof. induction a; simpl; [ring|rewrite IHa; ring]. Qed.
+
+Lemma ksum_map_add {B} (f g : B -> S) l :
+  ksum (map (fun x => (f x + g x)%K) l) = (ksum (map f l) + ksum (map g l))%K.
+Proof. induction l; simpl; [ring|rewrite IHl; ring]. Qed.
+
+Lemma ksum_map_scale {B} (c : S) (f : B -> S) l :
+  ksum (map (fun x => (c * f x)%K) l) = (c * ksum (map f l))%K.
+Proof. induction l; simpl; [ring|rewrite IHl; ring]. Qed.
+
+Lemma ksum_map_zero {B} (f : B -> S) l : (forall x, In x l -> f x = k0) -> ksum (map f l) = k0.
+Proof.
+  induction l; simpl; intros H; auto. rewrite H by auto. rewrite IHl by auto. ring.
+Qed.
+
+Lemma ksum_delta (f : nat -> S) a n : forall s, (s <= a < s + n)%nat ->
+  ksum (map (fun j => if Nat.eqb a j then f j else k0) (seq s n)) = f a.
+Proof.
+  induction n as [|n IH]; intros s H; [lia|]. simpl.
+  destruct (Nat.eqb_spec a s) as [->|Hne].
+  - rewrite ksum_map_zero; [ring|].
+    intros x Hx. apply in_seq in Hx. destruct (Nat.eqb_spec s x); auto; lia.
+  - rewrite IH by lia. ring.
+Qed.
+
+(* sum_j g(j) * add_at(idx, v)[j] = sum_i g(idx_i) * v_i  when every target is inside the array *)
+Lemma addat_swap (g : nat -> S) (ps : list (nat * S)) n :
+  (forall p, In p ps -> (fst p < n)%nat) ->
+  ksum (map (fun j => (g j * addat_fn ps j)%K) (seq 0 n)) = ksum (map (fun p => (g (fst p) * snd p)%K) ps).
+Proof.
+  induction ps as [|[a v] t IH]; intros H.
+  - unfold addat_fn; simpl. apply ksum_map_zero. intros; ring.
+  - transitivity (ksum (map (fun j => ((if Nat.eqb a j then (g j * v)%K else k0) + g j * addat_fn t j)%K) (seq 0 n))).
+    { f_equal. apply map_ext. intros j. unfold addat_fn; simpl. destruct (Nat.eqb a j); ring. }
+    rewrite ksum_map_add, IH by (intros p Hp; apply H; now right).
+    rewrite (ksum_delta (fun j => (g j * v)%K) a n 0).
+    + reflexivity.
+    + specialize (H (a, v) (or_introl eq_refl)). simpl in H. lia.
+Qed.
+
+Lemma addat_notin (ps : list (nat * S)) j : ~ In j (map fst ps) -> addat_fn ps j = k0.
+Proof.
+  intros H. unfold addat_fn. apply ksum_map_zero. intros [a v] Hin; simpl.
+  destruct (Nat.eqb_spec a j); auto. subst. exfalso. apply H. now apply (in_map fst) in Hin.
+Qed.
+
+(* injective targets: assignment = accumulation *)
+Lemma assign_addat (ps : list (nat * S)) j : NoDup (map fst ps) -> assign_fn ps j = addat_fn ps j.
+Proof.
+  unfold assign_fn. induction ps as [|[a v] t IH]; intros Hnd; simpl.
+  - reflexivity.
+  - inversion Hnd as [|? ? Hni Hnd']; subst. specialize (IH Hnd').
+    unfold addat_fn; simpl. fold (addat_fn t j).
+    destruct (lastmatch t j) eqn:El.
+    + rewrite <- IH. destruct (Nat.eqb_spec a j); [|ring].
+      subst. exfalso. apply Hni. apply lastmatch_in in El. now apply (in_map fst) in El.
+    + rewrite <- IH. destruct (Nat.eqb a j); ring.
+Qed.
+
+Lemma assign_swap (g : nat -> S) (ps : list (nat * S)) n :
+  NoDup (map fst ps) -> (forall p, In p ps -> (fst p < n)%nat) ->
+  ksum (map (fun j => (g j * assign_fn ps j)%K) (seq 0 n)) = ksum (map (fun p => (g (fst p) * snd p)%K) ps).
+Proof.
+  intros Hnd H. rewrite <- (addat_swap g ps n H). f_equal. apply map_ext. intros j.
+  now rewrite assign_addat.
+Qed.
+
+(* function view of an injective assignment *)
+Lemma assign_at (ps : list (nat * S)) j x : NoDup (map fst ps) -> In (j, x) ps -> assign_fn ps j = x.
+Proof. intros Hnd Hin. unfold assign_fn. now rewrite (lastmatch_nodup ps j x Hnd Hin). Qed.
+Lemma assign_none (ps : list (nat * S)) j : ~ In j (map fst ps) -> assign_fn ps j = k0.
+Proof.
+  intros H. unfold assign_fn. destruct (lastmatch ps j) eqn:E; auto.
+  exfalso. apply H. apply lastmatch_in in E. now apply (in_map fst) in E.
+Qed.
+
+End ScatterProofs.
+
+(* ------------------------------------------------------------------ unique_1d *)
+Section UniqueProofs.
+Variable A : Type.
+Variable le : A -> A -> bool.
+Variable eqb : A -> A -> bool.
+Variable dflt : A.
+Hypothesis eqb_spec : forall a b, eqb a b = true <-> a = b.
+Hypothesis le_total : forall a b, le a b = true \/ le b a = true.
+Hypothesis le_trans : forall a b c, le a b = true -> le b c = true -> le a c = true.
+Hypothesis le_antisym : forall a b, le a b = true -> le b a = true -> a = b.
+
+Definition lt (a b : A) : Prop := le a b = true /\ a <> b.
+Fixpoint sortedP (l : list A) : Prop :=
+  match l with [] => True | x :: t => (forall y, In y t -> le x y = true) /\ sortedP t end.
+Fixpoint ssorted (l : list A) : Prop :=
+  match l with [] => True | x :: t => (forall y, In y t -> lt x y) /\ ssorted t end.
+
+Fixpoint insA (x : A) (l : list A) : list A :=
+  match l with [] => [x] | a :: t => if le x a then x :: l else a :: insA x t end.
+
+Lemma map_ins vals i l :
+  map (fun i => nth i vals dflt) (ins le dflt vals i l) = insA (nth i vals dflt) (map (fun i => nth i vals dflt) l).
+Proof. induction l as [|j t IH]; simpl; auto. destruct (le _ _); simpl; congruence. Qed.
+
+Lemma ins_perm vals i l : Permutation (ins le dflt vals i l) (i :: l).
+Proof.
+  induction l as [|j t IH]; simpl; auto.
+  destruct (le _ _); auto. rewrite IH. apply perm_swap.
+Qed.
+
+Lemma argsort_perm vals : Permutation (argsort le dflt vals) (seq 0 (length vals)).
+Proof.
+  unfold argsort. induction (seq 0 (length vals)) as [|i s IH]; simpl; auto.
+  rewrite ins_perm. now constructor.
+Qed.
+
+Lemma insA_in x l y : In y (insA x l) <-> y = x \/ In y l.
+Proof.
+  induction l as [|a t IH]; simpl.
+  - intuition.
+  - destruct (le x a); simpl; rewrite ?IH; intuition.
+Qed.
+
+Lemma insA_sorted x l : sortedP l -> sortedP (insA x l).
+Proof.
+  induction l as [|a t IH]; simpl; intros H.
+  - split; [intros y []|exact I].
+  - destruct H as [Ha Ht]. destruct (le x a) eqn:E; simpl.
+    + split; [|split; auto]. intros y [<-|Hy]; auto. apply (le_trans x a y); auto.
+    + split; [|auto]. intros y Hy. apply insA_in in Hy. destruct Hy as [->|Hy]; auto.
+      destruct (le_total a x); auto. destruct (le_total x a); congruence.
+Qed.
+
+Lemma argsort_sorted vals : sortedP (map (fun i => nth i vals dflt) (argsort le dflt vals)).
+Proof.
+  unfold argsort. induction (seq 0 (length vals)) as [|i s IH]; simpl; auto.
+  rewrite map_ins. now apply insA_sorted.
+Qed.
+
+(* the fused mask/cumsum/select pass: every row of [l] is found in the unique list at its cumsum index *)
+Lemma dd_spec l : forall p c u cs pre, dd eqb p c l = (u, cs) ->
+  length pre = c -> (1 <= c)%nat -> nth (c - 1) pre dflt = p ->
+  Forall2 (fun x k => (k < length (pre ++ u))%nat /\ nth k (pre ++ u) dflt = x) l cs.
+Proof.
+  induction l as [|x t IH]; intros p c u cs pre H Hl Hc Hp; simpl in H.
+  - inversion H; constructor.
+  - destruct (eqb p x) eqn:E.
+    + destruct (dd eqb p c t) as [u' cs'] eqn:Ed. inversion H; subst u cs.
+      constructor.
+      * apply eqb_spec in E. subst x. rewrite app_length. split; [lia|].
+        rewrite app_nth1 by lia. auto.
+      * apply (IH p c u' cs' pre Ed Hl Hc Hp).
+    + destruct (dd eqb x (Datatypes.S c) t) as [u' cs'] eqn:Ed. inversion H; subst u cs.
+      constructor.
+      * rewrite app_length; simpl. split; [lia|].
+        rewrite app_nth2 by lia. now replace (c - length pre)%nat with 0%nat by lia.
+      * replace (pre ++ x :: u') with ((pre ++ [x]) ++ u') by (now rewrite <- app_assoc).
+        apply (IH x (Datatypes.S c) u' cs' (pre ++ [x]) Ed).
+        -- rewrite app_length; simpl; lia.
+        -- lia.
+        -- rewrite app_nth2 by lia. now replace (Datatypes.S c - 1 - length pre)%nat with 0%nat by lia.
+Qed.
+
+Lemma dedup_spec l u cs : dedup eqb l = (u, cs) ->
+  Forall2 (fun x k => (k < length u)%nat /\ nth k u dflt = x) l cs.
+Proof.
+  destruct l as [|x t]; simpl; intros H.
+  - inversion H; constructor.
+  - destruct (dd eqb x 1 t) as [u' cs'] eqn:Ed. inversion H; subst u cs.
+    constructor.
+    + simpl. split; [lia|auto].
+    + apply (dd_spec t x 1%nat u' cs' [x] Ed); auto.
+Qed.
+
+Lemma dd_sorted l : forall p c u cs, dd eqb p c l = (u, cs) -> sortedP (p :: l) ->
+  (forall y, In y u -> lt p y /\ In y l) /\ ssorted u.
+Proof.
+  induction l as [|x t IH]; intros p c u cs H Hs; simpl in H.
+  - inversion H; subst. split; [intros y []|exact I].
+  - destruct Hs as [Hp [Hx Ht]].
+    destruct (eqb p x) eqn:E.
+    + destruct (dd eqb p c t) as [u' cs'] eqn:Ed. inversion H; subst u cs.
+      destruct (IH p c u' cs' Ed) as [H1 H2].
+      { split; auto. intros y Hy. apply Hp. now right. }
+      split; auto. intros y Hy. destruct (H1 y Hy). split; auto. now right.
+    + destruct (dd eqb x (Datatypes.S c) t) as [u' cs'] eqn:Ed. inversion H; subst u cs.
+      destruct (IH x (Datatypes.S c) u' cs' Ed) as [H1 H2].
+      { split; auto. }
+      assert (Hpx : lt p x).
+      { split; [apply Hp; now left|]. intros ->. assert (eqb x x = true) by now apply eqb_spec. congruence. }
+      split.
+      * intros y [<-|Hy]; [split; auto; now left|].
+        destruct (H1 y Hy) as [[Hxy Hne] Hin]. split; [|now right].
+        split; [apply Hp; now right|].
+        intros ->. apply Hne. apply le_antisym; auto. apply Hpx.
+      * simpl. split; auto. intros y Hy. apply (H1 y Hy).
+Qed.
+
+Lemma dedup_sorted l u cs : dedup eqb l = (u, cs) -> sortedP l -> ssorted u /\ (forall y, In y u -> In y l).
+Proof.
+  destruct l as [|x t]; simpl; intros H Hs.
+  - inversion H; subst. split; [exact I|auto].
+  - destruct (dd eqb x 1 t) as [u' cs'] eqn:Ed. inversion H; subst u cs.
+    destruct (dd_sorted t x 1%nat u' cs' Ed Hs) as [H1 H2].
+    split.
+    + simpl. split; auto. intros y Hy. apply (H1 y Hy).
+    + intros y [<-|Hy]; [now left|right; apply (H1 y Hy)].
+Qed.
+
+Lemma ssorted_nodup l : ssorted l -> NoDup l.
+Proof.
+  induction l as [|x t IH]; simpl; intros H; constructor.
+  - intros Hin. destruct H as [H _]. destruct (H x Hin) as [_ Hne]. now apply Hne.
+  - apply IH, H.
+Qed.
+
+(* THE SPECIFICATION OF unique_1d *)
+Theorem unique_inverse_spec vals u inv : unique_1d le eqb dflt vals = (u, inv) ->
+  length inv = length vals /\
+  (forall i, (i < length vals)%nat ->
+     (nth i inv 0 < length u)%nat /\ nth (nth i inv 0%nat) u dflt = nth i vals dflt) /\
+  ssorted u /\ NoDup u /\ (forall x, In x u -> In x vals).
+Proof.
+  unfold unique_1d. set (perm := argsort le dflt vals).
+  set (f := fun i => nth i vals dflt).
+  destruct (dedup eqb (map f perm)) as [u' cs] eqn:Ed. intros H; inversion H; subst u inv. clear H.
+  pose proof (argsort_perm vals) as Hperm. fold perm in Hperm.
+  pose proof (dedup_spec _ _ _ Ed) as Hspec. apply Forall2_map_l in Hspec.
+  destruct (dedup_sorted _ _ _ Ed (argsort_sorted vals)) as [Hss Hin].
+  split; [apply length_tab|]. split; [|split; [auto|split; [now apply ssorted_nodup|]]].
+  - intros i Hi. rewrite (nth_tab (length vals) _ i 0%nat Hi).
+    assert (Hip : In i perm) by (apply (Permutation_in i (Permutation_sym Hperm)), in_seq; lia).
+    assert (Hnd : NoDup perm) by (apply (Permutation_NoDup (Permutation_sym Hperm)), seq_NoDup).
+    assert (Hlen := Forall2_length _ _ _ Hspec).
+    destruct (In_nth perm i 0%nat Hip) as [j [Hj Hnj]].
+    assert (Hc : In (i, nth j cs 0%nat) (combine perm cs)).
+    { rewrite <- Hnj at 1. rewrite <- (combine_nth perm cs j 0%nat 0%nat Hlen). apply nth_In.
+      rewrite combine_length. lia. }
+    assert (Hmf : map fst (combine perm cs) = perm).
+    { now apply map_fst_combine. }
+    rewrite (lastmatch_nodup (combine perm cs) i (nth j cs 0%nat)); [|now rewrite Hmf|auto].
+    apply (Forall2_combine_in _ _ _ Hspec i (nth j cs 0%nat) Hc).
+  - intros x Hx. apply Hin in Hx. apply in_map_iff in Hx. destruct Hx as [i [<- Hi]].
+    unfold f. apply nth_In. apply (Permutation_in i Hperm) in Hi. apply in_seq in Hi. lia.
+Qed.
+
+(* two strictly sorted lists with the same elements are equal *)
+Lemma lt_trans' a b c : lt a b -> lt b c -> lt a c.
+Proof.
+  intros [H1 N1] [H2 N2]. split; [eapply le_trans; eauto|].
+  intros ->. apply N1. now apply le_antisym.
+Qed.
+Lemma ssorted_ext l1 : forall l2, ssorted l1 -> ssorted l2 -> (forall x, In x l1 <-> In x l2) -> l1 = l2.
+Proof.
+  induction l1 as [|x t IH]; intros [|y t2] H1 H2 Hio; auto.
+  - exfalso. apply (proj2 (Hio y)). now left.
+  - exfalso. apply (proj1 (Hio x)). now left.
+  - destruct H1 as [Hx Ht], H2 as [Hy Ht2].
+    assert (x = y).
+    { destruct (proj1 (Hio x) (or_introl eq_refl)) as [E|Hin]; auto.
+      destruct (proj2 (Hio y) (or_introl eq_refl)) as [E|Hin2]; auto.
+      destruct (Hy x Hin) as [A1 A2]. destruct (Hx y Hin2) as [B1 B2].
+      exfalso. apply A2. now apply le_antisym. }
+    subst y. f_equal. apply IH; auto.
+    intros z. split; intros Hz.
+    + destruct (proj1 (Hio z) (or_intror Hz)) as [E|]; auto. subst z. destruct (Hx x Hz) as [_ N]. now contradiction N.
+    + destruct (proj2 (Hio z) (or_intror Hz)) as [E|]; auto. subst z. destruct (Hy x Hz) as [_ N]. now contradiction N.
+Qed.
+
+End UniqueProofs.
+
+(* ------------------------------------------------------------------ the lexicographic order on integer keys *)
+Lemma lex_cmp_eq a : forall b, lex_cmp a b = Eq <-> a = b.
+Proof.
+  induction a as [|x a IH]; intros [|y b]; simpl; split; try discriminate; auto.
+  - destruct (Z.compare_spec x y); try discriminate. intros H'. apply IH in H'. congruence.
+  - intros E; inversion E; subst. rewrite Z.compare_refl. now apply IH.
+Qed.
+Lemma key_eqb_spec a b : key_eqb a b = true <-> a = b.
+Proof.
+  unfold key_eqb. rewrite <- lex_cmp_eq. destruct (lex_cmp a b); split; auto; discriminate.
+Qed.
+Lemma lex_cmp_antisym a : forall b, lex_cmp b a = CompOpp (lex_cmp a b).
+Proof.
+  induction a as [|x a IH]; intros [|y b]; simpl; auto.
+  rewrite (Z.compare_antisym x y). destruct (x ?= y)%Z; simpl; auto.
+Qed.
+Lemma key_le_total a b : key_le a b = true \/ key_le b a = true.
+Proof. unfold key_le. rewrite (lex_cmp_antisym a b). destruct (lex_cmp a b); simpl; auto. Qed.
+Lemma key_le_antisym a b : key_le a b = true -> key_le b a = true -> a = b.
+Proof.
+  unfold key_le. rewrite (lex_cmp_antisym a b). intros H1 H2. apply lex_cmp_eq.
+  destruct (lex_cmp a b); simpl in *; auto; discriminate.
+Qed.
+Lemma lex_cmp_trans a : forall b c, lex_cmp a b <> Gt -> lex_cmp b c <> Gt -> lex_cmp a c <> Gt.
+Proof.
+  induction a as [|x a IH]; intros [|y b] [|z c]; simpl; auto; try congruence.
+  destruct (Z.compare_spec x y); destruct (Z.compare_spec y z); try congruence; subst.
+  - rewrite Z.compare_refl. apply IH.
+  - intros _ _. now rewrite (proj2 (Z.compare_lt_iff _ _) H0).
+  - intros _ _. now rewrite (proj2 (Z.compare_lt_iff _ _) H).
+  - intros _ _. assert (x < z)%Z by lia. now rewrite (proj2 (Z.compare_lt_iff _ _) H1).
+Qed.
+Lemma key_le_trans a b c : key_le a b = true -> key_le b c = true -> key_le a c = true.
+Proof.
+  unfold key_le. intros H1 H2.
+  assert (lex_cmp a c <> Gt).
+  { apply (lex_cmp_trans a b c); intros E; [rewrite E in H1|rewrite E in H2]; discriminate. }
+  destruct (lex_cmp a c); auto; congruence.
+Qed.
+
+Definition key_ssorted := ssorted key key_le.
+
+Theorem unique_keys_spec vals u inv : unique_keys vals = (u, inv) ->
+  length inv = length vals /\
+  (forall i, (i < length vals)%nat ->
+     (nth i inv 0 < length u)%nat /\ nth (nth i inv 0%nat) u [] = nth i vals []) /\
+  key_ssorted u /\ NoDup u /\ (forall x, In x u -> In x vals).
+Proof.
+  apply (unique_inverse_spec key key_le key_eqb [] key_eqb_spec key_le_total key_le_trans key_le_antisym).
+Qed.
+
+(* ------------------------------------------------------------------ shiftnd *)
+Section ShiftProofs.
+Variable S : ScalOps.
+Hypothesis L : ScalLaws S.
+Add Ring Kr2 : (k_ring S L).
+Notation triple := (triple S).
+
+Definition d0 : key * triple := ([], t0).
+
+(* the shape of the un-cropped plan *)
+Lemma plan_none keys dk kdim u inv :
+  unique_keys (keys ++ map (fun k => vadd k dk) keys ++ map (fun k => vsub k dk) keys) = (u, inv) ->
+  shiftnd_plan keys dk kdim None =
+  mkPlan u (map Some (firstn (length keys) inv)) (map Some (firstn (length keys) (skipn (length keys) inv))).
+Proof. intros H. unfold shiftnd_plan. now rewrite H. Qed.
+
+Section Core.
+Variable rows : list (key * triple).
+Variable dk : key.
+Let keys := map fst rows.
+Let n1 := length rows.
+Let vals := keys ++ map (fun k => vadd k dk) keys ++ map (fun k => vsub k dk) keys.
+Variable u : list key.
+Variable inv : list nat.
+Hypothesis Hu : unique_keys vals = (u, inv).
+
+Let idxL := firstn n1 inv.
+Let idxT := firstn n1 (skipn n1 inv).
+
+Lemma len_keys : length keys = n1. Proof. unfold keys, n1. apply map_length. Qed.
+Lemma len_vals : length vals = (3 * n1)%nat.
+Proof. unfold vals. rewrite !app_length, !map_length, len_keys. lia. Qed.
+Lemma len_inv : length inv = (3 * n1)%nat.
+Proof. destruct (unique_keys_spec _ _ _ Hu) as [H _]. now rewrite H, len_vals. Qed.
+
+Lemma idxL_tab : idxL = map (fun i => nth i inv 0%nat) (seq 0 n1).
+Proof. unfold idxL. apply firstn_tab. rewrite len_inv. lia. Qed.
+Lemma idxT_tab : idxT = map (fun i => nth (n1 + i) inv 0%nat) (seq 0 n1).
+Proof. unfold idxT. apply firstn_skipn_tab. rewrite len_inv. lia. Qed.
+
+Lemma key_nth i : (i < n1)%nat -> nth i keys [] = fst (nth i rows d0).
+Proof. intros. unfold keys. change [] with (fst d0). apply map_nth. Qed.
+
+Lemma valsL i : (i < n1)%nat -> nth i vals [] = fst (nth i rows d0).
+Proof. intros H. unfold vals. rewrite app_nth1 by (rewrite len_keys; lia). now apply key_nth. Qed.
+Lemma valsT i : (i < n1)%nat -> nth (n1 + i) vals [] = vadd (fst (nth i rows d0)) dk.
+Proof.
+  intros H. unfold vals. rewrite app_nth2 by (rewrite len_keys; lia).
+  rewrite app_nth1 by (rewrite map_length, !len_keys; lia).
+  rewrite len_keys. replace (n1 + i - n1)%nat with i by lia.
+  rewrite (nth_indep _ [] (vadd [] dk)) by (rewrite map_length, len_keys; lia).
+  rewrite (map_nth (fun k => vadd k dk)). now rewrite key_nth.
+Qed.
+
+Lemma invL i : (i < n1)%nat -> (nth i inv 0 < length u)%nat /\ nth (nth i inv 0%nat) u [] = fst (nth i rows d0).
+Proof.
+  intros H. destruct (unique_keys_spec _ _ _ Hu) as [_ [Hs _]].
+  rewrite <- (valsL i H). apply Hs. rewrite len_vals. lia.
+Qed.
+Lemma invT i : (i < n1)%nat ->
+  (nth (n1 + i) inv 0 < length u)%nat /\ nth (nth (n1 + i) inv 0%nat) u [] = vadd (fst (nth i rows d0)) dk.
+Proof.
+  intros H. destruct (unique_keys_spec _ _ _ Hu) as [_ [Hs _]].
+  rewrite <- (valsT i H). apply Hs. rewrite len_vals. lia.
+Qed.
+
+Lemma nodup_of_inj (f : nat -> nat) (g : nat -> key) (ks : list key) n :
+  (forall i, (i < n)%nat -> nth (f i) u [] = nth i ks []) -> length ks = n -> NoDup ks ->
+  NoDup (map f (seq 0 n)).
+Proof.
+  intros Hf Hl Hnd. apply (NoDup_nth _ 0%nat). rewrite map_length, seq_length.
+  intros i j Hi Hj E.
+  rewrite !(nth_tab n f _ 0%nat) in E by auto.
+  apply (proj1 (NoDup_nth ks []) Hnd); try lia.
+  rewrite <- (Hf i Hi), <- (Hf j Hj). now rewrite E.
+Qed.
+
+Lemma idxL_nodup : NoDup keys -> NoDup idxL.
+Proof.
+  intros Hnd. rewrite idxL_tab. apply (nodup_of_inj _ (fun _ => []) keys n1); auto.
+  - intros i Hi. rewrite (proj2 (invL i Hi)). now rewrite key_nth.
+  - apply len_keys.
+Qed.
+Lemma idxT_nodup : NoDup (map (fun k => vadd k dk) keys) -> NoDup idxT.
+Proof.
+  intros Hnd. rewrite idxT_tab. apply (nodup_of_inj _ (fun _ => []) (map (fun k => vadd k dk) keys) n1); auto.
+  - intros i Hi. rewrite (proj2 (invT i Hi)).
+    rewrite (nth_indep _ [] (vadd [] dk)) by (rewrite map_length, len_keys; lia).
+    rewrite (map_nth (fun k => vadd k dk)). now rewrite key_nth.
+  - now rewrite map_length, len_keys.
+Qed.
+
+(* the output rows of shiftnd1 *)
+Definition F2 := assign_fn (combine idxT (map (@fp S) (map snd rows))).
+Definition Z2 := assign_fn (combine idxL (map (@fz S) (map snd rows))).
+
+Lemma shiftnd1_eq : shiftnd1 rows dk =
+  map (fun j => (nth j u [], mk3 (F2 j) (kconj (F2 (length u - 1 - j)%nat)) (Z2 j))) (seq 0 (length u)).
+Proof.
+  unfold shiftnd1. fold keys. rewrite (plan_none keys dk 1 u inv Hu). unfold relocate; simpl.
+  rewrite !opairs_some, len_keys. fold n1 idxL idxT.
+  exact (combine_tab_r (@nil Z) u _).
+Qed.
+
+Lemma pairs_tab (idx : list nat) (f : nat -> nat) (c : triple -> S) :
+  idx = map f (seq 0 n1) ->
+  combine idx (map c (map snd rows)) = map (fun i => (f i, c (snd (nth i rows d0)))) (seq 0 n1).
+Proof.
+  intros ->. rewrite map_map. rewrite (list_as_tab d0 rows) at 1. fold n1. rewrite map_map.
+  apply combine_map_seq.
+Qed.
+
+Lemma synth_rows (h : key * triple -> S) :
+  ksum (map h rows) = ksum (map (fun i => h (nth i rows d0)) (seq 0 n1)).
+Proof. rewrite (list_as_tab d0 rows) at 1. fold n1. now rewrite map_map. Qed.
+
+(* KEY THEOREM (F+): relocation of F+ to k+dk multiplies the synthesis by chi(dk) *)
+Lemma shiftnd1_synthP (chi : key -> S) :
+  NoDup (map (fun k => vadd k dk) keys) ->
+  (forall k, In k keys -> chi (vadd k dk) = (chi k * chi dk)%K) ->
+  synthP chi (shiftnd1 rows dk) = (chi dk * synthP chi rows)%K.
+Proof.
+  intros Hnd Hchi. unfold synthP. rewrite shiftnd1_eq, map_map. simpl.
+  unfold F2. rewrite (pairs_tab idxT _ (@fp S) idxT_tab).
+  rewrite (assign_swap S L (fun j => chi (nth j u []))).
+  - rewrite map_map; simpl. rewrite <- (ksum_map_scale S L), synth_rows.
+    f_equal. apply map_ext_in. intros i Hi. apply in_seq in Hi.
+    rewrite (proj2 (invT i ltac:(lia))). rewrite Hchi; [ring|].
+    rewrite <- key_nth by lia. apply nth_In. rewrite len_keys. lia.
+  - rewrite map_map; simpl. rewrite <- idxT_tab. now apply idxT_nodup.
+  - intros p Hp. apply in_map_iff in Hp. destruct Hp as [i [<- Hi]]. apply in_seq in Hi. simpl.
+    apply (invT i). lia.
+Qed.
+
+(* KEY THEOREM (Z): Z stays where it is *)
+Lemma shiftnd1_synthZ (chi : key -> S) :
+  NoDup keys -> synthZ chi (shiftnd1 rows dk) = synthZ chi rows.
+Proof.
+  intros Hnd. unfold synthZ. rewrite shiftnd1_eq, map_map. simpl.
+  unfold Z2. rewrite (pairs_tab idxL _ (@fz S) idxL_tab).
+  rewrite (assign_swap S L (fun j => chi (nth j u []))).
+  - rewrite map_map; simpl. rewrite synth_rows.
+    f_equal. apply map_ext_in. intros i Hi. apply in_seq in Hi.
+    now rewrite (proj2 (invL i ltac:(lia))).
+  - rewrite map_map; simpl. rewrite <- idxL_tab. now apply idxL_nodup.
+  - intros p Hp. apply in_map_iff in Hp. destruct Hp as [i [<- Hi]]. apply in_seq in Hi. simpl.
+    apply (invL i). lia.
+Qed.
+
+(* F- is rebuilt as the mirror conjugate: array-level well-formedness of the F columns, unconditionally *)
+Lemma shiftnd1_mirror_F j : (j < length u)%nat ->
+  let out := shiftnd1 rows dk in
+  length out = length u /\
+  fm (snd (nth j out d0)) = kconj (fp (snd (nth (length u - 1 - j) out d0))).
+Proof.
+  intros Hj out. unfold out. rewrite shiftnd1_eq. split; [now rewrite map_length, seq_length|].
+  set (f := fun j => (nth j u [], mk3 (F2 j) (kconj (F2 (length u - 1 - j)%nat)) (Z2 j))).
+  change (map f (seq 0 (length u))) with (tab (length u) f).
+  rewrite !(nth_tab (length u) f _ d0) by lia. reflexivity.
+Qed.
+
+End Core.
+End ShiftProofs.
+
+(* ------------------------------------------------------------------ the order-independent algebraic core *)
+(* Rows as an association list over ANY wavenumber type G with a character chi; relocation of every
+   amplitude to k+dk followed by summation of the rows with equal wavenumber (in whatever order the
+   dedup visits them) multiplies the synthesis by chi(dk). *)
+Section Assoc.
+Variable S : ScalOps.
+Hypothesis L : ScalLaws S.
+Add Ring Kr3 : (k_ring S L).
+Variable G : Type.
+Variable geqb : G -> G -> bool.
+Hypothesis geqb_eq : forall a b, geqb a b = true -> a = b.
+Variable gadd : G -> G -> G.
+Variable chi : G -> S.
+Hypothesis chi_add : forall a b, chi (gadd a b) = (chi a * chi b)%K.
+
+Definition synthL (l : list (G * S)) : S := ksum (map (fun r => (chi (fst r) * snd r)%K) l).
+
+Fixpoint add_to (k : G) (a : S) (acc : list (G * S)) : list (G * S) :=
+  match acc with
+  | [] => [(k, a)]
+  | (k', b) :: t => if geqb k' k then (k', (b + a)%K) :: t else (k', b) :: add_to k a t
+  end.
+Definition accum (l : list (G * S)) : list (G * S) := fold_left (fun acc r => add_to (fst r) (snd r) acc) l [].
+
+Lemma synthL_add_to k a acc : synthL (add_to k a acc) = (synthL acc + chi k * a)%K.
+Proof.
+  unfold synthL. induction acc as [|[k' b] t IH]; simpl; [ring|].
+  destruct (geqb k' k) eqn:E; simpl.
+  - apply geqb_eq in E. subst. ring.
+  - rewrite IH. ring.
+Qed.
+
+Lemma accum_synth l : synthL (accum l) = synthL l.
+Proof.
+  unfold accum. assert (H : forall acc, synthL (fold_left (fun acc r => add_to (fst r) (snd r) acc) l acc)
+                                       = (synthL acc + synthL l)%K).
+  { induction l as [|[k a] t IH]; intros acc; simpl.
+    - unfold synthL; simpl; ring.
+    - rewrite IH, synthL_add_to. unfold synthL; simpl; ring. }
+  rewrite H. unfold synthL; simpl; ring.
+Qed.
+
+Theorem reloc_synth dk l :
+  synthL (accum (map (fun r => (gadd (fst r) dk, snd r)) l)) = (chi dk * synthL l)%K.
+Proof.
+  rewrite accum_synth. unfold synthL. rewrite map_map. simpl.
+  rewrite <- (ksum_map_scale S L). f_equal. apply map_ext. intros [k a]; simpl. rewrite chi_add. ring.
+Qed.
+End Assoc.
+
+(* ------------------------------------------------------------------ concrete character on Z^d *)
+From EPG Require Import Synth.
+Section Character.
+Variable S : ScalOps.
+Hypothesis L : ScalLaws S.
+Add Ring Kr4 : (k_ring S L).
+
+(* chi(k) = prod_j z_j^(k_j)   (z_j = exp(i x_j kvalue); the 4th factor is exp(2 pi i f tvalue)) *)
+Fixpoint chiZ (zs : list (S * S)) (k : key) : S :=
+  match zs, k with
+  | (z, zi) :: zt, x :: kt => (zpow S z zi x * chiZ zt kt)%K
+  | _, _ => k1
+  end.
+
+Lemma chiZ_add zs : List.Forall (fun p => (fst p * snd p)%K = k1) zs ->
+  forall a b, length a = length b -> chiZ zs (vadd a b) = (chiZ zs a * chiZ zs b)%K.
+Proof.
+  induction 1 as [|[z zi] zt Hz Hzt IH]; intros a b Hl.
+  - destruct a, b; simpl; ring.
+  - destruct a as [|x a], b as [|y b]; simpl in *; try discriminate; [ring|].
+    rewrite (zpow_add S L z zi Hz), IH by lia. ring.
+Qed.
+
+Lemma vadd_cancel dk : forall a b, length a = length dk -> length b = length dk -> vadd a dk = vadd b dk -> a = b.
+Proof.
+  induction dk as [|d dk IH]; intros [|x a] [|y b] Ha Hb E; simpl in *; try discriminate; auto.
+  inversion E. f_equal; [lia|]. apply IH; auto.
+Qed.
+
+Lemma NoDup_map_on {B C} (f : B -> C) l :
+  NoDup l -> (forall a b, In a l -> In b l -> f a = f b -> a = b) -> NoDup (map f l).
+Proof.
+  induction 1 as [|x t Hx Ht IH]; intros Hf; simpl; constructor.
+  - intros Hin. apply in_map_iff in Hin. destruct Hin as [y [E Hy]].
+    apply Hx. rewrite <- (Hf y x); auto; [now right|now left].
+  - apply IH. intros a b Ha Hb. apply Hf; now right.
+Qed.
+
+(* MAIN THEOREM for the code-shaped shiftnd on Z^d: after the shift the synthesis at the position with
+   dephasing factors zs is that of the isochromat: F+ multiplied by chi(dk), Z unchanged *)
+Theorem shiftnd_synth (zs : list (S * S)) (rows : list (key * triple S)) (dk : key) :
+  List.Forall (fun p => (fst p * snd p)%K = k1) zs ->
+  (forall k, In k (map fst rows) -> length k = length dk) ->
+  NoDup (map fst rows) ->
+  synthP (chiZ zs) (shiftnd1 rows dk) = (chiZ zs dk * synthP (chiZ zs) rows)%K /\
+  synthZ (chiZ zs) (shiftnd1 rows dk) = synthZ (chiZ zs) rows.
+Proof.
+  intros Hz Hlen Hnd.
+  destruct (unique_keys (map fst rows ++ map (fun k => vadd k dk) (map fst rows) ++ map (fun k => vsub k dk) (map fst rows)))
+    as [u inv] eqn:Hu.
+  split.
+  - apply (shiftnd1_synthP S L rows dk u inv Hu).
+    + apply NoDup_map_on; auto. intros a b Ha Hb. apply vadd_cancel; auto.
+    + intros k Hk. apply chiZ_add; auto.
+  - apply (shiftnd1_synthZ S L rows dk u inv Hu); auto.
+Qed.
+
+Theorem mirror_wf_F (rows : list (key * triple S)) (dk : key) j :
+  let out := shiftnd1 rows dk in
+  (j < length out)%nat ->
+  fm (snd (nth j out ([], t0))) = kconj (fp (snd (nth (length out - 1 - j) out ([], t0)))).
+Proof.
+  intros out.
+  destruct (unique_keys (map fst rows ++ map (fun k => vadd k dk) (map fst rows) ++ map (fun k => vsub k dk) (map fst rows)))
+    as [u inv] eqn:Hu.
+  intros Hj.
+  assert (Hl : length out = length u) by (unfold out; rewrite (shiftnd1_eq S rows dk u inv Hu); now rewrite map_length, seq_length).
+  rewrite Hl in *. apply (shiftnd1_mirror_F S rows dk u inv Hu j Hj).
+Qed.
+
+End Character.
+
+(* ------------------------------------------------------------------ shiftmerge: amplitudes add exactly *)
+Lemma firstn_in {B} n : forall (l : list B) x, In x (firstn n l) -> In x l.
+Proof. induction n; intros [|a l] x; simpl; try tauto. intros [->|H]; auto. Qed.
+Lemma skipn_in {B} n : forall (l : list B) x, In x (skipn n l) -> In x l.
+Proof. induction n; intros [|a l] x; simpl; try tauto. intros H; right; auto. Qed.
+
+Lemma inv_all_lt vals u inv : unique_keys vals = (u, inv) -> forall x, In x inv -> (x < length u)%nat.
+Proof.
+  intros H x Hx. destruct (unique_keys_spec _ _ _ H) as [Hl [Hs _]].
+  destruct (In_nth inv x 0%nat Hx) as [i [Hi <-]]. apply Hs. lia.
+Qed.
+
+Lemma map_snd_combine {B C} (l2 : list C) : forall (l1 : list B),
+  (length l2 <= length l1)%nat -> map snd (combine l1 l2) = l2.
+Proof.
+  induction l2 as [|c l2 IH]; intros [|a l1] Hl; simpl in *; auto; try lia.
+  f_equal. apply IH. lia.
+Qed.
+
+Section MergeProofs.
+Variable S : ScalOps.
+Hypothesis L : ScalLaws S.
+Add Ring Kr5 : (k_ring S L).
+
+Lemma addat_total (ps : list (nat * S)) n :
+  (forall p, In p ps -> (fst p < n)%nat) -> ksum (map (addat_fn ps) (seq 0 n)) = ksum (map snd ps).
+Proof.
+  intros H. transitivity (ksum (map (fun j => (k1 * addat_fn ps j)%K) (seq 0 n))).
+  { f_equal. apply map_ext. intros; ring. }
+  rewrite (addat_swap S L (fun _ => k1) ps n H). f_equal. apply map_ext. intros; ring.
+Qed.
+
+Section Plan.
+Variables (pre : Q -> Q) (rnd : Q -> Z) (wav : list qvec) (dk grid : qvec).
+Let p := merge_plan pre rnd wav dk grid.
+Let n1 := length wav.
+
+Lemma merge_plan_targets :
+  (forall x, In x (mL p) -> (x < length (mq p))%nat) /\ (forall x, In x (m1T p) -> (x < length (mq p))%nat) /\
+  length (mL p) = n1 /\ length (m1T p) = n1.
+Proof.
+  unfold p, merge_plan.
+  set (kL := map (map pre) wav).
+  set (k1T := map (fun k => qvadd k dk) kL).
+  set (qL := map (fun p => map rnd (qvdiv (qvscale qhalf (qvsub (fst p) (snd p))) grid)) (combine kL (rev kL))).
+  set (q1T := map (fun k => map rnd (qvdiv k grid)) k1T).
+  set (q2T := map vneg (rev q1T)).
+  destruct (unique_keys (qL ++ q1T ++ q2T)) as [q2 idx] eqn:Hu. simpl.
+  assert (Hlen : length idx = (3 * n1)%nat).
+  { destruct (unique_keys_spec _ _ _ Hu) as [Hl _]. rewrite Hl.
+    unfold qL, q2T, q1T, k1T, kL. rewrite !app_length, !map_length, rev_length, !map_length.
+    rewrite combine_length, rev_length, !map_length, Nat.min_id. unfold n1. simpl. now rewrite Nat.add_0_r. }
+  fold n1. split; [|split; [|split]].
+  - intros x Hx. apply (inv_all_lt _ _ _ Hu). eapply firstn_in; eauto.
+  - intros x Hx. apply (inv_all_lt _ _ _ Hu). eapply skipn_in. eapply firstn_in; eauto.
+  - rewrite firstn_length. lia.
+  - rewrite firstn_length, skipn_length. lia.
+Qed.
+
+(* merging rows into grid cells preserves the sum of the amplitudes: the value reconstructed at
+   position 0 (chi = 1) is unchanged, whatever the grid *)
+Theorem merge_adds_exact (amps : list (triple S)) : length amps = n1 ->
+  ksum (map (@fp S) (merge_amps p amps)) = ksum (map (@fp S) amps) /\
+  ksum (map (@fz S) (merge_amps p amps)) = ksum (map (@fz S) amps).
+Proof.
+  intros Hl. destruct merge_plan_targets as [HL [HT [LL LT]]].
+  unfold merge_amps, tab. rewrite !map_map. simpl. split.
+  - rewrite addat_total.
+    + rewrite map_snd_combine; auto. rewrite map_length. lia.
+    + intros [a v] Hin. apply in_combine_l in Hin. now apply HT.
+  - rewrite addat_total.
+    + rewrite map_snd_combine; auto. rewrite map_length. lia.
+    + intros [a v] Hin. apply in_combine_l in Hin. now apply HL.
+Qed.
+
+(* synthesis after a gridded shift, for ANY wavenumbers kout attached to the cells (the weighted means
+   computed by the code are one choice): if every non-zero F+ lands in a cell whose attached wavenumber has the
+   character value of its relocated wavenumber (this is what "the grid does not merge distinct wavenumbers"
+   gives), the synthesis is multiplied by chi(dk).  PARTIAL: the hypothesis speaks about the computed cell
+   wavenumbers; it is not derived from injectivity of the quantisation. *)
+Theorem shiftmerge_synth_partial (chi : qvec -> S) (kout : nat -> qvec) (amps : list (triple S)) :
+  length amps = n1 ->
+  (forall k, In k (mkL p) -> chi (qvadd k dk) = (chi k * chi dk)%K) ->
+  (forall i, (i < n1)%nat -> fp (nth i amps t0) = k0 \/
+        chi (kout (nth i (m1T p) 0%nat)) = chi (qvadd (nth i (mkL p) []) dk)) ->
+  length (mkL p) = n1 ->
+  ksum (map (fun j => (chi (kout j) * fp (nth j (merge_amps p amps) t0))%K) (seq 0 (length (mq p)))) =
+  (chi dk * ksum (map (fun i => (chi (nth i (mkL p) []) * fp (nth i amps t0))%K) (seq 0 n1)))%K.
+Proof.
+  intros Hl Hchi Hcell HkL. destruct merge_plan_targets as [HL [HT [LL LT]]].
+  transitivity (ksum (map (fun j => (chi (kout j) * addat_fn (combine (m1T p) (map (@fp S) amps)) j)%K)
+                          (seq 0 (length (mq p))))).
+  { f_equal. apply map_ext_in. intros j Hj. apply in_seq in Hj. unfold merge_amps.
+    rewrite (nth_tab _ _ j t0) by lia. reflexivity. }
+  rewrite (addat_swap S L).
+  2:{ intros [a v] Hin. apply in_combine_l in Hin. now apply HT. }
+  rewrite <- (ksum_map_scale S L).
+  rewrite (combine_as_tab 0%nat t0 (@fp S) (m1T p) amps n1 LT Hl), map_map. simpl.
+  f_equal. apply map_ext_in. intros i Hi. apply in_seq in Hi.
+  destruct (Hcell i ltac:(lia)) as [E|E].
+  - rewrite E. ring.
+  - rewrite E, Hchi; [ring|]. apply nth_In. lia.
+Qed.
+
+End Plan.
+End MergeProofs.
+
+(* ------------------------------------------------------------------ G is S of the wavenumber; C uses axis 4 *)
+Lemma G_is_S_of_wavenumber (twopi tau : Q) (grad : qvec) :
+  G_shift twopi tau grad = map (fun g => (twopi * (42576 # 1) * tau * (1 # 1000) * g)%Q) grad.
+Proof. reflexivity. Qed.
+Lemma C_puts_time_on_axis_4 (tau : Q) : firstn 3 (C_shift tau) = [0%Q; 0%Q; 0%Q] /\ nth 3 (C_shift tau) 0%Q = tau.
+Proof. split; reflexivity. Qed.
+
+(* setup_coords: switching a 1-D state to the n-D back-end labels array index j with wavenumber j - n *)
+Lemma backend_switch n kdim j : (j < 2 * n + 1)%nat ->
+  nth j (setup_coords n kdim) [] = (Z.of_nat j - Z.of_nat n)%Z :: repeat 0%Z (kdim - 1).
+Proof. intros H. unfold setup_coords. exact (nth_tab _ _ j [] H). Qed.
+
+(* ------------------------------------------------------------------ back-ends agree: executable family *)
+(* 1-D integer model of Model/Ops.v against the n-D model with one (or three) columns on programs
+   shift d1; mixing matrix; shift d2; mixing matrix; shift d3, compared as sorted wavenumber -> state content
+   with zero rows dropped.  Checked by evaluation for the 5^3 step triples and 2 column counts below
+   (general sequences are the business of the correspondence check). *)
+From EPG Require Import QI Ops.
+Section Agree.
+Notation T := (triple QIops).
+Definition ag_mat : mat3 QIops :=
+  mkM (mk3 (qi 1 2 1 2) (qi 1 2 0 1) (qi 0 1 (-1) 2))
+      (mk3 (qi 1 2 0 1) (qi 1 2 (-1) 2) (qi 0 1 1 2))
+      (mk3 (qi 0 1 1 2) (qi 0 1 (-1) 2) (qi 1 2 0 1)).
+Definition ag_init : sm QIops :=
+  mkSM [mk3 (qi 1 2 0 1) (qi 1 1 (-1) 2) (qi 0 1 1 2); mk3 (qi 1 2 1 1) (qi 1 2 (-1) 1) (qi 1 1 0 1);
+        mk3 (qi 1 1 1 2) (qi 1 2 0 1) (qi 0 1 (-1) 2)]
+       [t0; mk3 qi0 qi0 (qi 1 1 0 1); t0].
+Definition rows_of_sm (pad : nat) (s : sm QIops) : list (key * T) :=
+  let n := ((length (st s) - 1) / 2)%nat in
+  tab (length (st s)) (fun i => ((Z.of_nat i - Z.of_nat n)%Z :: repeat 0%Z pad, nth i (st s) t0)).
+Definition nd_mat (rows : list (key * T)) : list (key * T) := map (fun r => (fst r, mv ag_mat (snd r))) rows.
+Definition ag_check (pad : nat) (d : Z * Z * Z) : bool :=
+  let '(d1, d2, d3) := d in
+  let one := run [OShift d1 None; OMatrix ag_mat None; OShift d2 None; OMatrix ag_mat None; OShift d3 None] ag_init in
+  let v x := x :: repeat 0%Z pad in
+  let nd := shiftnd1 (nd_mat (shiftnd1 (nd_mat (shiftnd1 (rows_of_sm pad ag_init) (v d1))) (v d2))) (v d3) in
+  rows_eqb (content (rows_of_sm pad one)) (content nd).
+Definition ag_steps : list Z := [-2; -1; 1; 2; 3]%Z.
+Definition ag_family : list (Z * Z * Z) :=
+  flat_map (fun a => flat_map (fun b => map (fun c => (a, b, c)) ag_steps) ag_steps) ag_steps.
+Lemma backends_agree_family :
+  forallb (ag_check 0) ag_family = true /\ forallb (ag_check 2) ag_family = true.
+Proof. split; vm_compute; reflexivity. Qed.
+End Agree.
